@@ -11,7 +11,7 @@ META = {
                  "generic-record -> item mapping of add_* and the item -> generic-record mapping of read_generic_* are inverse "
                  "(same item field and same block table for every generic field); R01.4 the time reference handed to "
                  "get_time_offset and add_time_offset has the same provenance; R01.5 address-event aggregation increments on "
-                 "hit and inserts 1 on miss; R01.6 no member is written/read under the key named after another member. R01.10: a record stored for every loop element is declared or wholly re-assigned inside the loop, or every member the loop sets is set unconditionally. R01.11: every CdnsBlock member that a method called from CdnsExporter::buffer_* can change is re-initialised by CdnsBlock::clear(). The R01.9 import of the array/map start table tolerates a flag that is only ever set when every library caller passes a flag that is false at the call. R01.12 (R12.4 imported): write_block() serialises, clears and re-arms the buffered block unconditionally, so records are written under the parameter set the application selected. R01.14 = R03.11: a pointer / iterator member that refers into a container of the same object is re-seated by every member function that can reallocate that container. R01.15: a data member that is always assigned the same function of other members (cdnsverif/derived.py) is recomputed by every member function that changes those members; the lazy form under a validity flag / stored key is refreshed before every read and invalidated after every change. R01.16 = R06.2: every flush threshold in front of a write_int call - a constant or a head-size function of the value, tabulated over the value's range - is at least the head write_int needs, so no integer is refused and silently dropped. R01.11 accepts a member that is read only while a validity flag is set which clear() lowers, and a member read only in conditions that also test a companion which changes only together with it and which clear() re-initialises.",
+                 "hit and inserts 1 on miss; R01.6 no member is written/read under the key named after another member. R01.10: a record stored for every loop element is declared or wholly re-assigned inside the loop, or every member the loop sets is set unconditionally. R01.11: every CdnsBlock member that a method called from CdnsExporter::buffer_* can change is re-initialised by CdnsBlock::clear(). The R01.9 import of the array/map start table tolerates a flag that is only ever set when every library caller passes a flag that is false at the call. R01.12 (R12.4 imported): write_block() serialises, clears and re-arms the buffered block unconditionally, so records are written under the parameter set the application selected. R01.14 = R03.11: a pointer / iterator member that refers into a container of the same object is re-seated by every member function that can reallocate that container. R01.15: a data member that is always assigned the same function of other members (cdnsverif/derived.py) is recomputed by every member function that changes those members; the lazy form under a validity flag / stored key is refreshed before every read and invalidated after every change. R01.16 = R06.2: every flush threshold in front of a write_int call - a constant or a head-size function of the value, tabulated over the value's range - is at least the head write_int needs, so no integer is refused and silently dropped. R01.11 accepts a member that is read only while a validity flag is set which clear() lowers, and a member read only in conditions that also test a companion which changes only together with it and which clear() re-initialises. R01.17: 'filled' flags of the generic adders - every conditional statement list that stores a member of a local record also raises the flag that record is attached under (pairing read off the lists that do both), no such flag is lowered again, every tested flag is raised somewhere. R01.18 = R03.12 (optionals are dereferenced where they hold a value; a dereference under the negated presence test is a violation). R01.3 also: a generic field the reader restores but the adder never stores is a violation.",
     "explanation": "Static cross-check of sibling implementations (write/read, add/read_generic) and of the wire tables "
                    "against RFC 8618. Decides the structural part of C01 for all records and parameter sets; value equality "
                    "(tick arithmetic, integers over their range, byte strings) and record order are not decided.",
@@ -237,7 +237,9 @@ def check_generic_mapping(run, rule):
             if X not in W:
                 if X == "ae_count":
                     continue   # count is produced by aggregation, see R01.5
-                run.ob(rule, key, True, rf, Rm[X][2], "generic field %s is produced on reading only" % X, nontrivial=False)
+                run.ob(rule, key, False, rf, Rm[X][2],
+                       "generic field %s is restored by %s from %s, but %s never stores it: the field of every record given to the "
+                       "library is lost" % (X, short(rf["qn"]), Rm[X][0], short(wf["qn"])))
                 continue
             if X not in Rm:
                 run.ob(rule, key, False, rf, rf["line"],
@@ -822,6 +824,7 @@ def check(run):
     _C06.check_public_writes(run, rename={"R06.2": "R01.16", "R06.3": None})
     check_fresh_records(run, "R01.10")
     check_filled_flags(run, "R01.17")
+    _C03.check_optional_derefs(run, "R01.18")   # a flipped presence test loses the field for every record that has it
     check_block_state_cleared(run, "R01.11")
     # records are written under the parameter set the application selected: write_block() re-arms the (possibly empty) block
     from . import C12
